@@ -40,7 +40,7 @@ def gen_cases(ctx):
         n = rng.choice([3, 4, 5, 6, 7]) if kind else rng.choice([1, 2, 3, 4, 5, 6])
         cases.append({"par": gen.random_parent_array(rng, n, kind), "seed": rng.randrange(10 ** 9),
                       "mode": rng.choice(MODES), "moves": rng.randint(0, 6), "deficient": rng.random() < 0.3,
-                      "mixed": rng.random() < 0.5})
+                      "mixed": rng.random() < 0.5, "dtype": rng.choice(["complex", "complex", "float", "int"])})
     return cases
 
 
@@ -109,6 +109,15 @@ def _make_state(case):
     nprng = np.random.default_rng(case["seed"])
     par = case["par"]
     ttns, info = gen.random_ttns(rng, nprng, par, phys=(1, 2, 2, 3), bonds=(1, 2, 2, 3, 5))
+    dt = case.get("dtype", "complex")
+    if dt != "complex":
+        # real / integer element types (hand-written basis or GHZ-like tensors are integer arrays)
+        for nid in sorted(ttns.nodes):
+            t = ttns.tensors[nid]
+            if dt == "float":
+                ttns.replace_tensor(nid, np.ascontiguousarray(t.real))
+            else:
+                ttns.replace_tensor(nid, np.rint(2 * t.real).astype(np.int64))
     if case["deficient"]:
         # make one tensor rank deficient along a random leg by projecting onto a 1-dim subspace
         nid = rng.choice(sorted(ttns.nodes))
@@ -184,6 +193,7 @@ def _run_impl(ctx, case, qlog):
     ctx.tally("nodes", n)
     ctx.tally("redundant_bond", redundant)
     ctx.tally("rank_deficient", case["deficient"])
+    ctx.tally("dtype", case.get("dtype", "complex"))
     ctx.sample(case, 3)
     centre = rng.choice(order)
     out = []
